@@ -2,7 +2,8 @@
 C06 - emu-sv operators apply exactly the Hamiltonian and Lindbladian they represent.
 
 E1: complete product N x drive-value pattern x phase pattern x ALL interaction sparsity patterns x
-jump-operator list; the linear maps are probed on a full basis (every computational basis vector
+jump-operator list, plus E2 histories (operators built one after the other from the same input tensors, each changed in place between
+constructions: all histories over {U, delta, omega, phi, jump} up to depth 2/3); the linear maps are probed on a full basis (every computational basis vector
 for H; every Hermitian matrix unit E_ij+E_ji, i(E_ij-E_ji) for the Lindbladian) plus one seeded
 element, and compared with the dense reference.  The batched (GPU) kernel is compared with plain
 matmul on every reachable shape, and the Lindbladian is re-run with tensors that report
@@ -50,6 +51,9 @@ def _jump_lists(seed):
     lists["complex"] = [cx]
     lists["three"] = [UNIT["e01"], UNIT["sz"], cx]
     lists["six"] = six
+    # exactly diagonal operators with complex entries (a shortcut for diagonal jumps must conjugate the right-hand factor)
+    lists["diag_complex"] = [[[1, 0], [0, 1j]]]
+    lists["diag_two"] = [[[0.7 + 0.2j, 0], [0, -0.3 + 0.9j]], [[0, 0], [0, 1j]]]
     return lists
 
 
@@ -87,8 +91,68 @@ def cases(tier, seed):
             for pat in _patterns(n, tier) if n <= 3 else [0, 2 ** (n * (n - 1) // 2) - 1, 0b010101]:
                 for jl in b["jump_lists"]:
                     yield {"op": "L", "N": n, "omega": om, "phase": ph, "pattern": pat, "jumps": jl, "seed": seed}
+    # histories: operators built one after the other from the SAME tensor objects, which the caller changes in place in between
+    for kind in ("H", "L"):
+        for n in (2, 3):
+            for depth in (1, 2) if tier == "quick" else (1, 2, 3):
+                for hist in itertools.product(HIST_OPS, repeat=depth):
+                    yield {"op": "history", "kind": kind, "N": n, "hist": list(hist), "omega": "distinct", "phase": "all_nonzero", "pattern": 2 ** (n * (n - 1) // 2) - 1, "seed": seed}
     for k, m in itertools.product(range(0, 7 if tier == "quick" else 9), [1, 2, 3, 8, 64]):
         yield {"op": "matmul", "k": k, "m": m, "seed": seed}
+
+
+HIST_OPS = ["U", "delta", "omega", "phi", "jump"]
+
+
+def _history_case(case):
+    """Build, change one input tensor in place, build again ...: every operator must represent the values its inputs held when it was built."""
+    from emu_sv.hamiltonian import RydbergHamiltonian
+    from emu_sv.lindblad_operator import RydbergLindbladian
+
+    n = case["N"]
+    om, de, ph, U = _params(case)
+    t = {"omega": _t(om), "delta": _t(de), "phi": _t(ph), "U": _t(U, torch.float64), "jump": _t(_c([[0.3, 0.8], [0.1j, -0.5]]))}
+    d = 2**n
+    dev = torch.device("cpu")
+    r = np.random.RandomState(case["seed"] + 13 * n)
+    v = r.normal(size=d) + 1j * r.normal(size=d)
+    g = r.normal(size=(d, d)) + 1j * r.normal(size=(d, d))
+    rho = g + g.conj().T
+    napp = 0
+    for step, change in enumerate([None] + case["hist"]):
+        if change == "U":
+            t["U"][0, 1] += 1.7
+            t["U"][1, 0] += 1.7
+        elif change == "delta":
+            t["delta"][0] -= 2.1
+        elif change == "omega":
+            t["omega"][n - 1] *= 0.5
+        elif change == "phi":
+            t["phi"][0] += 0.9
+        elif change == "jump":
+            t["jump"][1, 1] *= 1j
+        Href = dense_hamiltonian(t["omega"].real.tolist(), t["delta"].real.tolist(), t["phi"].real.tolist(), t["U"].numpy())
+        scale = max(1.0, np.abs(Href).max())
+        if case["kind"] == "H":
+            H = RydbergHamiltonian(omegas=t["omega"], deltas=t["delta"], phis=t["phi"], interaction_matrix=t["U"], device=dev)
+            err = np.abs((H * _t(v)).numpy() - Href @ v).max() / scale
+        else:
+            L = RydbergLindbladian(omegas=t["omega"], deltas=t["delta"], phis=t["phi"], pulser_lindblads=[t["jump"]], interaction_matrix=t["U"], device=dev)
+            emb = [embed(t["jump"].numpy(), q, n, 2) for q in range(n)]
+            ref = -1j * (Href @ rho - rho @ Href)
+            for c in emb:
+                cd = c.conj().T
+                ref = ref + c @ rho @ cd - 0.5 * (cd @ c @ rho + rho @ cd @ c)
+            err = np.abs(-1j * (L @ _t(rho)).numpy() - ref).max() / scale
+        napp += 1
+        if err > 1e-12:
+            return result(
+                False,
+                sig=f"history|{case['kind']}|after={change}",
+                msg=f"operator number {step + 1} of the history {case['hist']} (inputs changed in place between constructions) differs from the dense reference of its own inputs by {err:.2e}; N={n}",
+                outcome="viol",
+            )
+    return result(True, outcome=["history", case["kind"], n, len(case["hist"])], transitions=napp, nontrivial=True)
 
 
 def _params(case):
@@ -143,6 +207,9 @@ def run_case(case):
         if err > 1e-12:
             return result(False, sig="matmul_2x2_with_batched", msg=f"batched 2x2 matmul differs from left@right by {err:.2e} for shape {right.shape}", outcome="viol")
         return result(True, outcome=["matmul", case["k"], case["m"]])
+
+    if case["op"] == "history":
+        return _history_case(case)
 
     from emu_sv.hamiltonian import RydbergHamiltonian
     from emu_sv.lindblad_operator import RydbergLindbladian
